@@ -45,3 +45,23 @@ void *memchr(const void *s, int c, size_t n)
             return (void *) (p + i);
     return 0;
 }
+
+/* strndup: CBMC 6.11 ships no model.  The copy lives in a heap object of VF_STRNDUP_MAX bytes
+ * (a constant >= the harness bound + 1) instead of exactly len+1: a symbolic allocation size
+ * costs gigabytes, and the library never reads the copies back. */
+#ifndef VF_STRNDUP_MAX
+#define VF_STRNDUP_MAX 96
+#endif
+void *malloc(size_t);
+char *strndup(const char *s, size_t n)
+{
+    size_t len = 0;
+    while (len < n && s[len] != 0)
+        len++;
+    __CPROVER_assert(len < VF_STRNDUP_MAX, "harness: strndup model buffer large enough");
+    char *p = malloc(VF_STRNDUP_MAX);
+    __CPROVER_assume(p != 0);
+    for (size_t i = 0; i < VF_STRNDUP_MAX; i++)
+        p[i] = (i < len) ? s[i] : 0;
+    return p;
+}
